@@ -11,6 +11,23 @@ D = decimal.Decimal
 ECUS = ["ECU_A", "ECU_B", "Gw", "Body", "Diag"]
 UNITS = ["", "V", "km/h", "rpm", "degC", "%", "\u00b0C"]
 TEXTS = ["plain text", "two words, comma", "100%", "a/b (c)", "x=1; y=2", "Gr\u00f6\u00dfe \u00fcber 5 \u00b5m"]
+# further lines of a text over several lines (formats whose definition lets a text run over several lines): an empty line, blanks at
+# either end of a line, text outside ASCII, punctuation of the statement grammar (a quote is written escaped; no line ends in quote + semicolon)
+MORE_LINES = ["second line", "", " line with a blank in front", "line with a blank behind ", "   ", "\u00e4\u00f6\u00fc \u00b5m", "x=1; y=2;",
+              'said "no" twice', "a, b; c", "CM_ is no keyword here", "last line"]
+
+
+def gen_text(rng, multiline, p_two=0.3):
+    """a comment text: one line out of TEXTS; where the format allows it also two lines (as before) and three to five lines"""
+    text = rng.choice(TEXTS)
+    if not multiline:
+        return text
+    r = rng.random()
+    if r < p_two:
+        return text + "\nsecond line"
+    if r < p_two + 0.3:
+        return text + "".join("\n" + rng.choice(MORE_LINES) for _ in range(rng.randint(2, 4)))
+    return text
 # one number, several admissible renderings: (value as Decimal string, [renderings])
 NUMBERS = [("1", ["1", "1.0", "1E0", "1e+00", "+1", "1.000"]), ("0.5", ["0.5", "5E-1", "5e-01", "0.50"]),
            ("0.001", ["0.001", "1E-3", "1e-03", "1.0E-3", "0.0010"]), ("0.125", ["0.125", "1.25E-1", "125e-3"]),
@@ -75,7 +92,7 @@ def gen_signal(rng, name, nbytes, used, o):
              "factor": fac[0], "offset": off[0], "min": None, "max": None, "unit": rng.choice(UNITS),
              "receivers": sorted(rng.sample(o["ecus"], min(len(o["ecus"]), rng.choice([0, 1, 1, 2])))), "mux": None, "values": {}, "comment": ""}
         if rng.random() < 0.3:
-            s["comment"] = rng.choice(TEXTS) + ("\nsecond line" if rng.random() < 0.3 and o.get("multiline", True) else "")
+            s["comment"] = gen_text(rng, o.get("multiline", True))
         if not is_float and rng.random() < 0.35:
             lo, hi = (-(1 << (size - 1)), (1 << (size - 1)) - 1) if signed else (0, (1 << size) - 1)
             keys = sorted({k for k in (0, 1, 2, hi, lo) if lo <= k <= hi})[:rng.randint(1, 4)]
@@ -188,7 +205,7 @@ def gen_net(rng, opts=None):
                 s["receivers"] = [r for r in s["receivers"] if r not in tx]
         frames.append({"name": "Frame%d" % k, "id": arbid, "ext": ext, "size": nbytes,
                        "tx": tx,
-                       "comment": rng.choice(["", "", "frame comment", "first line\nsecond line"]) if o.get("multiline", True) else rng.choice(["", "frame comment"]),
+                       "comment": rng.choice(["", "", "frame comment", "first line\nsecond line", gen_text(rng, True, 0.0)]) if o.get("multiline", True) else rng.choice(["", "frame comment"]),
                        "cycle": rng.choice([None, None, 10, 100]), "signals": sigs})
     net = {"ecus": ecus, "frames": frames, "defs": {"frame": [], "signal": [], "ecu": [], "global": []}, "gattrs": {}, "ecu_attrs": {}, "ecu_comments": {},
            "value_tables": {}, "groups": []}
@@ -221,7 +238,7 @@ def gen_net(rng, opts=None):
                 s["attrs"] = values("signal")
     for e in ecus:
         if rng.random() < 0.3:
-            net["ecu_comments"][e] = rng.choice(TEXTS)
+            net["ecu_comments"][e] = gen_text(rng, o.get("multiline", True) and o.get("multiline_ecu", True))
     if rng.random() < 0.3:
         net["value_tables"]["Tab0"] = {"0": "Off", "1": "On", "3": "two words"}
     for f in frames:
